@@ -20,6 +20,19 @@ import (
 // the 12 lines of tcpPlayerConn.GetNextMessage (tcp_acceptor.go), verbatim.
 type pipeConn struct {
 	net.Conn
+	mu    sync.Mutex
+	stall chan struct{} // non-nil: the server→client direction is stalled; closed on resume
+}
+
+// Write blocks while the client "does not read" (Client.Stall), then writes.
+func (t *pipeConn) Write(b []byte) (int, error) {
+	t.mu.Lock()
+	st := t.stall
+	t.mu.Unlock()
+	if st != nil {
+		<-st
+	}
+	return t.Conn.Write(b)
 }
 
 func (t *pipeConn) GetNextMessage() (b []byte, err error) {
@@ -65,6 +78,7 @@ type Client struct {
 	AutoHeartbeat bool
 
 	conn   net.Conn
+	srv    *pipeConn
 	enc    *codec.PomeloPacketEncoder
 	menc   *message.MessagesEncoder
 	opened bool
@@ -91,7 +105,8 @@ func (n *Node) Connect(front string) *Client {
 	c := &Client{n: n, Front: front, conn: cliEnd, AutoHeartbeat: true,
 		enc: codec.NewPomeloPacketEncoder(), menc: message.NewMessagesEncoder(false)}
 	go c.reader()
-	c.Session = session.NewClientSession(&pipeConn{Conn: srvEnd}, cfg)
+	c.srv = &pipeConn{Conn: srvEnd}
+	c.Session = session.NewClientSession(c.srv, cfg)
 	c.Session.Handle()
 	n.mu.Lock()
 	n.clients = append(n.clients, c)
@@ -206,6 +221,29 @@ func (c *Client) Notify(route string, data []byte) bool {
 
 // Heartbeat sends a heartbeat packet.
 func (c *Client) Heartbeat() bool { return c.SendPacket(packet.Heartbeat, nil) }
+
+// Stall makes the server→client direction of the connection stand still (a
+// client that stopped reading / a stalled link): every conn.Write of the
+// session blocks until Resume. Do not advance time or send on this client
+// synchronously while a flood is stalled (use Write from a goroutine).
+func (c *Client) Stall() {
+	c.srv.mu.Lock()
+	if c.srv.stall == nil {
+		c.srv.stall = make(chan struct{})
+	}
+	c.srv.mu.Unlock()
+}
+
+// Resume ends a Stall and waits for quiescence.
+func (c *Client) Resume() {
+	c.srv.mu.Lock()
+	if c.srv.stall != nil {
+		close(c.srv.stall)
+		c.srv.stall = nil
+	}
+	c.srv.mu.Unlock()
+	synctest.Wait()
+}
 
 // Take returns what arrived since the previous Take, in arrival order.
 func (c *Client) Take() []Msg {
